@@ -278,6 +278,13 @@ def gen_classes(tier):
                       ref_func='c_ref' if funcs else None, unref_func='c_unref' if funcs else None,
                       set_value_func='c_set' if funcs else None, get_value_func='c_get' if funcs else None))
         k += 1
+    # every subset of the four fundamental-type functions (each accessor must be guarded by its own field)
+    for mask in range(16):
+        fundamental = 1
+        yield ('class-fundfuncs:%02d' % mask,
+               ClassN('CF%d' % mask, parent=None, fundamental=True,
+                      ref_func='c_ref%d' % mask if mask & 1 else None, unref_func='c_unref%d' % mask if mask & 2 else None,
+                      set_value_func='c_set%d' % mask if mask & 4 else None, get_value_func='c_get%d' % mask if mask & 8 else None))
     # properties: all flag combos x transfer x accessor presence
     props = []
     meths = [Method('get_p', Ret(B('gint')), [], instance=(I('CP', 'CCP'), 'none'), symbol='c_cp_get_p'),
